@@ -9,16 +9,18 @@ from .lib.mir import AnchorLost
 CONFIGS_QUICK = ["A"]
 CONFIGS_THOROUGH = ["A", "R", "NOAPI"]
 TECHNIQUE = "condition-under-which rules (dominating branch facts) for every header mutation in CORSProc::bite's coroutine, decision tables of the builder and of the default OPTIONS handler"
-LEVEL_TEXT = ('Decides clauses C14-a/b: CORSProc::bite sets Access-Control-Allow-Origin to the configured origin unconditionally on every path from the inner proc to'
-              ' the return (so also on errors and 404), Allow-Credentials `true` exactly under the credentials flag, Expose-Headers exactly when configured, Vary: '
+LEVEL_TEXT = ('Decides clauses C14-a..d: CORSProc::bite sets Access-Control-Allow-Origin to the configured origin unconditionally on every path from the inner proc '
+              'to the return (so also on errors and 404), Allow-Credentials `true` exactly under the credentials flag, Expose-Headers exactly when configured, Vary: '
               'Origin exactly for the wildcard, the preflight-only headers (Max-Age, Allow-Methods, Allow-Headers with the echo of Access-Control-Request-Headers as '
               'fallback) only for OPTIONS requests, and rewrites 501 to 200 without Content-Type/Length only for OPTIONS with status Not Implemented; '
               'CORS::AllowCredentials() sets the flag only for a non-wildcard origin; the origin literal tables are mutually consistent; the default OPTIONS handler '
               'advertises the registered methods plus HEAD iff GET plus OPTIONS, answers 501 + Allow-Methods when the requested method is in that list, 400 + Allow-'
               'Methods when not, and 404 without Access-Control-Request-Method; register_handlers derives the list from exactly the filled handler slots. The '
               'requested preflight method is looked up by whole-name membership in the list of registered methods (not by a text search in their concatenation). '
-              'Every value-taking builder method of CORS stores `Some(<its parameter>)` unconditionally (no setting can be lost in a conversion). Decides these '
-              'clauses, not the advertised set under nested/merged applications.')
+              'Every value-taking builder method of CORS stores `Some(<its parameter>)` unconditionally (no setting can be lost in a conversion). C14-d: the router '
+              "attaches an application's fangs (hence its CORS fang) to every node of its subtree, handler-less nodes included, and mounting hands the mounted "
+              "application's fangs over on every success path -- the nodes that answer 404s and unserved methods under a mount are where a missing policy is "
+              'observable. Decides these clauses, not the advertised set under nested/merged applications.')
 
 
 def run(ck, progs):
@@ -29,6 +31,7 @@ def run(ck, progs):
         ck.guard("C14-a DECISION cors", lambda: c14a(ck, prog))
         ck.guard("C14-b DECISION options", lambda: c14b(ck, prog))
         ck.guard("C14-c PAIR builder keeps the policy", lambda: c14c(ck, prog))
+        ck.guard("C14-d SCOPE policy on every response", lambda: c14d(ck, prog))
     ck.config = None
 
 
@@ -271,3 +274,21 @@ def c14c(ck, prog):
         ck.ob(R, "CORS::%s" % f.name, ok, f.loc(None), "" if ok else "CORS::%s does not keep the setting it is given (%s): a configured value can be lost (`MaxAge(0)` = `do not cache preflights` would no longer be advertised)" % (f.name, why),
               how="self.%s = Some(<the parameter>) unconditionally" % f.name)
     ck.floor(R, "value-taking CORS builder methods", n, 3)
+
+
+def c14d(ck, prog):
+    """`every response of the application carries the policy` -- also the 404s and the default OPTIONS answers, which are
+    produced by handler-less nodes: the fang must be attached to every node of the application's subtree and survive
+    mounting. These are the router's attachment clauses (C04-f), re-evaluated here because CORS is the fang whose
+    absence on a not-found response is observable by a browser."""
+    R = "C14-d SCOPE policy on every response"
+    from . import C04
+    sub = type(ck)(ck.prop, ck.tier)
+    sub.config = ck.config
+    C04.c04f(sub, prog)
+    n = 0
+    for o in sub.obs:
+        n += 1
+        ck.ob(R, o["key"], o["ok"], o["where"], o["detail"] if o["ok"] else o["detail"] + " -- responses produced by those nodes (404 under a mount, methods the mounted application does not serve) "
+              "would lack Access-Control-Allow-Origin", how=o["how"], nontrivial=o.get("nontrivial", True))
+    ck.floor(R, "attachment clauses", n, 4)
